@@ -171,7 +171,7 @@ def run_group(mode, specs, repo, tier):
                 extra.append(f)
     jobs = min(len(names), max(1, int(os.environ.get('VERIF_KANI_JOBS', '8'))))
     maxmem = max(s.get('mem_gb', 8) for s in specs)
-    jobs = max(1, min(jobs, 56 // maxmem))
+    jobs = max(1, min(jobs, int(os.environ.get('VERIF_MEM_GB', '56')) // maxmem))
     cmd += flags + extra
     for n in names:
         cmd += ['--harness', n]
